@@ -97,8 +97,18 @@ def invariant(universe: list[AwareASTNode]) -> str | None:
             return "ancestors"
         if n.get_depth() != len(chain):
             return "depth"
-        if any(not a.is_ancestor(n) for a in chain[:1]):
-            pass
+        for m_ in universe:
+            if not attached(m_):
+                continue
+            pos = [j for j, a in enumerate(chain) if a is m_]
+            if m_.is_ancestor(n) != bool(pos):
+                return "is-ancestor"
+            try:
+                d_rel = n.get_depth(relative_to=m_)
+            except ValueError:
+                d_rel = None
+            if d_rel != (pos[0] + 1 if pos else None):
+                return "relative-depth"
     for n in universe:
         if attached(n):
             try:
